@@ -189,6 +189,30 @@ func checkC16(c *Case, st *Stats) string {
 			}
 		}
 		st.Class("positions-checked")
+		// a kept parsed function whose filter reads the member from the root: the caller replaces the
+		// member's value in place between two calls; the second call must compare with the value the
+		// member holds now (same object, same number of members)
+		if key != "zz9items" {
+			path := "$.zz9items[?(@.c == $" + sp.sel + ")].id"
+			held := map[string]interface{}{key: 1.0, "zz9items": []interface{}{
+				map[string]interface{}{"c": 1.0, "id": 10.0}, map[string]interface{}{"c": 2.0, "id": 20.0}, map[string]interface{}{"c": "1", "id": 30.0}}}
+			f, perr := jsonpath.Parse(path)
+			if perr != nil {
+				return fmt.Sprintf("key %q, spelling %s: %q was rejected by Parse: %v", key, sp.name, path, perr)
+			}
+			for round, step := range []struct {
+				val    interface{}
+				expect []interface{}
+			}{{1.0, []interface{}{10.0}}, {2.0, []interface{}{20.0}}, {"1", []interface{}{30.0}}, {1.0, []interface{}{10.0}}} {
+				held[key] = step.val
+				got, rerr := f(held)
+				st.Eval(1)
+				if rerr != nil || !reflect.DeepEqual(got, step.expect) {
+					return fmt.Sprintf("key %q, spelling %s: kept parsed %q, call %d after the caller set the member to %s in place, returned (%s, %v), expected %s", key, sp.name, path, round+1, JSONString(step.val), JSONString(got), rerr, JSONString(step.expect))
+				}
+			}
+			st.Class("root-member-in-filter-edited-in-place")
+		}
 		// the same member through an accessor: Get reads it, Set writes it and nothing else
 		if len(sp.name)%2 == 0 {
 			var acfg jsonpath.Config
